@@ -119,7 +119,9 @@ PLAN["C15"] = dict(
                               (GFA, "GFA.remove_node"), (GFA, "GFA.add_node"), (GFA, "Node.neighbors#body")],
     lemmas=[gfa_c.node_init_lemma],
     explanation="PROVED (deductive, unbounded): (0) remove_node (both loops, ghost enumeration of the two sides) removes exactly that node and exactly "
-                "the links to it at every other node, on both sides, self-links included, and keeps the adjacency invariant; add_node adds a node "
+                "the links to it at every other node, on both sides, self-links included, keeps the adjacency invariant, and leaves no stored link "
+                "tags that mention the deleted node (edge_tags only holds keys of existing links: an invariant add_edge, remove_edge and remove_node "
+                "each preserve, witnessed by the ghost map tagov); add_node adds a node "
                 "without links (or changes nothing when the id exists; also on its ValueError / AssertionError exits) and keeps the invariant. (1) the representation invariant of the adjacency (symmetric between the two ends of every link, no "
                 "dangling ids) is preserved by add_edge and remove_edge, with whole-view postconditions (the adjacency changes by exactly "
                 "that link at both ends, self-links included, node set unchanged); histories follow by induction over operations. "
@@ -142,6 +144,7 @@ PLAN["C15"] = dict(
         dict(name="remove_edge forgets the second end", file=GFA, old="        if side2 == 0:\n            self.nodes[n2].remove_from_start(n1, side1, overlap)\n        else:\n            self.nodes[n2].remove_from_end(n1, side1, overlap)", new="        if side2 == 0:\n            self.nodes[n2].remove_from_start(n1, side1, overlap)", expect="remove_edge", functions=[(GFA, "GFA.remove_edge")], quick=False),
         dict(name="find_component stops at the first visited neighbour", file=GFA, old="                if not self.nodes[n].visited:\n                    queue.append(n)", new="                if self.nodes[n].visited:\n                    break\n                queue.append(n)", expect="find_component", functions=[(GFA, "GFA.find_component")]),
         dict(name="all_components forgets to reset the flags", file=GFA, old="        self.set_visited(False)\n        return connected_comp", new="        return connected_comp", expect="all_components", functions=[(GFA, "GFA.all_components")]),
+        dict(name="remove_edge keeps the tags stored by the other end", file=GFA, old="        self.edge_tags.pop((n2, side2, n1, side1), None)\n", new="", expect="remove_edge", functions=[(GFA, "GFA.remove_edge")]),
         dict(name="remove_node unlinks the end side from the wrong side", file=GFA, old="            self.remove_edge((n_id, 1, n_end[0], n_end[1], overlap))", new="            self.remove_edge((n_id, 0, n_end[0], n_end[1], overlap))", expect="remove_node", functions=[(GFA, "GFA.remove_node")]),
         dict(name="add_node replaces an existing node", file=GFA, old="        if node_id not in self:\n            node = Node(node_id)", new="        if True:\n            node = Node(node_id)", expect="add_node", functions=[(GFA, "GFA.add_node")], quick=False),
         dict(name="dfs follows only the first neighbour", file=GFA, old="            for neighbour in self[s].neighbors():\n                stack.append(neighbour)", new="            for neighbour in self[s].neighbors()[:1]:\n                stack.append(neighbour)", expect="dfs", functions=[(GFA, "GFA.dfs")], quick=False),
